@@ -356,7 +356,8 @@ def check_streams(case):
       ent = live[op[2] % len(live)]
       cmd = op[1]
       with dev.cond:
-        dev._emit(cmd, 1, ent['local'] if cmd != 'OPEN' else 0, 'x' if cmd in ('CNXN', 'AUTH', 'OPEN') else '')  # pylint: disable=protected-access
+        # the packet carries whatever text a device may send (the error message quotes it)
+        dev._emit(cmd, 1, ent['local'] if cmd != 'OPEN' else 0, ['x', 'battery=100%', '%d items', 'x%sy'][(k + op[2]) % 4] if cmd in ('CNXN', 'AUTH', 'OPEN') else '')  # pylint: disable=protected-access
       try:
         # the packet is already waiting: the bound only matters on a machine too busy to get to it (real time)
         ent['stream'].read(length=0, timeout_ms=3000)
